@@ -127,6 +127,15 @@ def build(pid, log):
                     info['theorems'].append(n)
         info['pinned_ok'] = pinned_ok
         info['gen_ok'] = gen_ok
+        # thorough tier: independent re-check of the compiled property modules
+        if os.environ.get('VERIF_LEANCHECKER') == '1' and pinned_ok and have_props:
+            mods2 = ['FCA.Props.' + pid] + (['FCA.Props.%sGen' % pid] if have_gen and gen_ok else [])
+            r = sh(['lake', 'env', 'leanchecker'] + mods2, cwd=LEAN, timeout=1800)
+            info['leanchecker'] = 'ok' if r.returncode == 0 else 'FAILED: ' + r.stdout[-500:]
+            if r.returncode != 0:
+                info['failed'] = list(ok_names)
+                info['discharged'] = 0
+                info['notes'].append('leanchecker rejected the compiled property module')
     return info
 
 
@@ -153,6 +162,8 @@ def main():
         logs.append(s)
         print(s, file=sys.stderr)
 
+    if args.tier == 'thorough':
+        os.environ.setdefault('VERIF_LEANCHECKER', '1')
     try:
         if args.no_build:
             info = {'obligations': 0, 'discharged': 0, 'failed': [], 'extraction': {}, 'theorems': [], 'notes': ['--no-build'], 'pinned_ok': True, 'gen_ok': None}
@@ -275,6 +286,7 @@ def write_evidence(pid, tier, seed, run, info, wall, status):
         'partial': getattr(run, 'partial', []),
         'exhaustive': getattr(run, 'exhaustive', False),
         'source_pins_changed': info.get('pins_changed', []),
+        'leanchecker': info.get('leanchecker', 'not run (thorough tier only)'),
         'tie': 'correspondence-only' if info['failed'] else 'proof+extraction+correspondence' if info.get('gen_ok') else 'proof+correspondence',
         'known_findings_reproduced': run.known_hits,
     }
